@@ -67,6 +67,7 @@ Law(e) ==
     /\ JsonOK(e.j) /\ JsonOK(e.nb)               \* the standard encoder wrote both
     /\ e.out = Canon(e.v)                        \* from_json restored the same object (bytes by content)
     /\ ExclOK(e.v, e.j, e.nb)
+    /\ Prop_BinaryOnlyInBinaryFields(E, e.v)     \* no text / number / list field holds a binary value
     /\ e.same \in {"yes", "n/a"}                 \* complete to_json / full text / units / tables / image bytes
 
 AsBuilt(e) ==
